@@ -456,6 +456,11 @@ class BuiltinsMixin:
         self.set_seq(t, smt.simp(s))
         return t
 
+    def bi_itertools_count(self, args, kwargs):
+        start = kwargs.get('start', args[0] if args else smt.mk_int(0))
+        step = kwargs.get('step', args[1] if len(args) > 1 else smt.mk_int(1))
+        return self.static_val(GenObj('count', (start, step)))
+
     def bi_typing_TypeVar(self, args, kwargs):
         return self.static_val(ExtObject('TypeVar'))
 
